@@ -125,7 +125,45 @@ def wrap_def(pos, name):
     raise KeyError(pos)
 
 
+RENAME_KINDS = {
+    "record": ("%s: !record\n  fields:\n    a: int\n    b: string\n", "", ""),
+    "enum": ("%s: !enum\n  values: [x, y]\n", "", ""),
+    "enum_based": ("%s: !enum\n  base: uint8\n  values: {x: 1, y: 5}\n", "", ""),
+    "flags": ("%s: !flags\n  values: [r, w]\n", "", ""),
+    "generic_record": ("%s<T>: !record\n  fields:\n    g: T\n", "<int>", "<T>"),
+    "union_alias": ("%s: [int, string]\n", "", ""),
+    "vector_alias": ("%s: !vector {items: int}\n", "", ""),
+    "generic_union": ("%s<A, B>: [A, B]\n", "<int, string>", "<A, B>"),
+    "map_alias": ("%s: string->int\n", "", ""),
+}
+RENAME_POS = {"step": '"%s"', "stream_item": '!stream {items: "%s"}', "vector_item": '!vector {items: "%s"}', "optional": '[null, "%s"]',
+              "union_case": '[float, "%s"]', "generic_arg": '"W<%s>"', "map_value": '!map {keys: string, values: "%s"}'}
+
+
+def rename_model(kind, pos, name, alias=None, spell=None):
+    d, args, params = RENAME_KINDS[kind]
+    t = (spell or name) + args
+    s = "W<T>: !record\n  fields:\n    w: T\n" + d % name
+    if alias:
+        s += "%s%s: %s%s\n" % (alias, params, name, params)
+    if pos == "field":
+        s += 'Holder: !record\n  fields:\n    k: int\n    h: "%s"\n' % t
+        pt = "Holder"
+    else:
+        pt = RENAME_POS[pos] % t
+    return s + "P: !protocol\n  sequence:\n    first: int\n    probe: %s\n    last: string\n" % pt
+
+
 def make_pair(edit, pos):
+    if ":" in edit:
+        e, kind = edit.split(":")
+        if e == "rename":
+            return rename_model(kind, pos, "Old"), rename_model(kind, pos, "Fresh", "Old")
+        if e == "rename_keep_spelling":
+            return rename_model(kind, pos, "Old"), rename_model(kind, pos, "Fresh", "Old", spell="Old")
+        if e == "drop_rename_alias":
+            return rename_model(kind, pos, "Fresh", "Old"), rename_model(kind, pos, "Fresh")
+        raise KeyError(edit)
     if pos != "definition" and edit in RECORD_EDITS:
         rec = "Data: !record\n  fields:\n    a: int\n    b: string\n    c: float?\n"
         d, pr = wrap_def(pos, "Data")
